@@ -65,7 +65,7 @@ func (f *Frame) lookupDominating(name string, at *ssa.BasicBlock, st *State) (Va
 			if !ok {
 				break
 			}
-			if phi.Comment == name {
+			if phi.Comment == name || (name == "rangeint" && phi.Comment == "rangeint.iter") {
 				if ov, ok := f.hdrPhis[b]; ok {
 					if v, ok := ov[phi]; ok {
 						return v, true
@@ -126,7 +126,7 @@ func (f *Frame) lookupAtEnd(name string, b *ssa.BasicBlock, st *State) (Val, boo
 		if !ok {
 			break
 		}
-		if phi.Comment == name {
+		if phi.Comment == name || (name == "rangeint" && phi.Comment == "rangeint.iter") {
 			if v, ok := f.vals[phi]; ok {
 				return v, true
 			}
